@@ -61,6 +61,7 @@ Start == [pc |-> "auth", alt |-> 1, calls |-> 0, k |-> 1, auth |-> <<>>, args |-
 
 Decision(script, n) == IF n <= Len(script) THEN script[n] ELSE TRUE
 
+RespCheckOf(hd) == IF "respCheck" \in DOMAIN hd THEN hd.respCheck ELSE "valid"
 \* opts = [fail : BOOLEAN, sameErr : BOOLEAN, status : Nat]  (status # 0: the controller calls SetStatus(status) before returning)
 Step(h, req, script, opts, s) ==
     CASE s.pc = "auth" ->
@@ -83,8 +84,13 @@ Step(h, req, script, opts, s) ==
                      ELSE IF ~TokOf(p.type, tok).fits THEN [s EXCEPT !.pc = "done", !.outcome = "rejected", !.status = 422]
                      ELSE [s EXCEPT !.k = @ + 1, !.args = Append(@, TokOf(p.type, tok).canon)]
       [] s.pc = "invoke" ->
+            \* an operation error is answered first (500, or the status the controller set); otherwise the value is validated when
+            \* validateResponsePayload asks for it (respCheck = "invalid": the controller's zero value does not pass -> 500, whatever
+            \* status the controller set); otherwise the controller's status, else 200 / 204
             [s EXCEPT !.pc = "done", !.outcome = "invoked",
-                      !.status = IF opts.status # 0 THEN opts.status ELSE IF opts.fail THEN 500 ELSE IF h.returnsValue THEN 200 ELSE 204]
+                      !.status = IF opts.fail THEN (IF opts.status # 0 THEN opts.status ELSE 500)
+                                 ELSE IF RespCheckOf(h) = "invalid" THEN 500
+                                 ELSE IF opts.status # 0 THEN opts.status ELSE IF h.returnsValue THEN 200 ELSE 204]
       [] OTHER -> s
 
 RECURSIVE RunFrom(_, _, _, _, _)
